@@ -360,6 +360,173 @@ def edit_kinds(project: e3.Project, history: list) -> list:
     return result
 
 
+def _body(program: dict, label: str):
+    """The actions that run when step ``label`` executes (its script, or its simulated command;
+    None = the default behaviour of a simulated command)."""
+    word = label.split()[0] if label.split() else ""
+    scripts = program.get("scripts", {})
+    if word.startswith("./") and word[2:] in scripts:
+        return scripts[word[2:]]
+    return program.get("commands", {}).get(label)
+
+
+def _body_reads(actions) -> tuple:
+    """(variable names, paths) that a list of actions reads or amends as inputs."""
+    env, paths = set(), set()
+
+    def walk(acts):
+        for a in acts or ():
+            op = a.get("op")
+            if op == "getenv":
+                env.add(a["name"])
+            elif op == "amend":
+                env.update(a.get("env", []))
+                paths.update(a.get("inp", []))
+            elif op == "read":
+                paths.update(a.get("paths", []))
+            elif op == "if_exists":
+                walk(a.get("then", []))
+                walk(a.get("else", []))
+    walk(actions)
+    return env, paths
+
+
+def _declares(static_key: str, path: str) -> bool:
+    """Does the static declaration ``static_key`` (a path or a tree 'dir/') cover ``path``?"""
+    return static_key == path or (static_key.endswith("/") and path.startswith(static_key))
+
+
+def subject_edit_kinds(project: e3.Project, history: list, steps: set, files: set) -> set:
+    """The kinds of edit, over the whole history, that touch the SUBJECT of a difference: the
+    steps ``steps`` (their definition, their script / command, the plan that declares them, the
+    variables and input files they declare or read, one level of producers of those inputs) and
+    the static files ``files`` (content, declaration).  Edits elsewhere do not contribute, so the
+    result does not depend on what else a generated history happens to contain."""
+    proj = project.clone()
+    seen_steps = set(decls(proj.program)["step"])
+    seen_static = set(decls(proj.program)["static"])
+    kinds: set = set()
+    for phase in history:
+        before, prog_b = decls(proj.program), copy.deepcopy(proj.program)
+        src_b, env_b = dict(proj.sources), dict(proj.env)
+        for edit in phase.get("edits", []):
+            e3.apply_edit(proj, None, edit)
+        after, prog_a = decls(proj.program), proj.program
+
+        def step_kinds(l, prefix="", deep=True):
+            out = set()
+            b, a = before["step"].get(l), after["step"].get(l)
+            if b is None and a is None:
+                return out
+            plan = (a or b)["need"] == "PLAN"
+            word = "subplan-" if plan else "step-"
+            if a is None:
+                out.add(prefix + word + "dropped")
+            elif b is None:
+                out.add(prefix + word + ("readded" if l in seen_steps else "added"))
+            else:
+                for f in ("inp", "env", "out", "vol"):
+                    if a[f] != b[f]:
+                        less, more = set(b[f]) - set(a[f]), set(a[f]) - set(b[f])
+                        out.add(prefix + f"step-redefined:{f}" + ("-" if less else "") + ("+" if more else ""))
+                if a["need"] != b["need"]:
+                    out.add(prefix + "step-redefined:need")
+                if a["resources"] != b["resources"]:
+                    out.add(prefix + "step-redefined:resources")
+                if a["script"] != b["script"]:
+                    out.add(prefix + "step-moved-between-plans")
+                if json.dumps(_body(prog_b, l), sort_keys=True) != json.dumps(_body(prog_a, l), sort_keys=True):
+                    out.add(prefix + "script-changed")
+            if not deep:
+                return out
+            # the plan that declares it
+            for d, dd in ((b, before), (a, after)):
+                if d is not None and d["script"] != "plan.py":
+                    for pl in set(before["step"]) | set(after["step"]):
+                        if (pl.split() or [""])[0].lstrip("./") == d["script"] and pl != l:
+                            for k in step_kinds(pl, deep=False):
+                                if k.startswith("subplan-") or k == "script-changed":
+                                    out.add("declaring-" + k if k != "script-changed" else "declaring-plan-changed")
+            # what it reads
+            env, paths = set(), set()
+            for d, prog in ((b, prog_b), (a, prog_a)):
+                if d is not None:
+                    env.update(d["env"])
+                    paths.update(d["inp"])
+                    e2_, p2 = _body_reads(_body(prog, l))
+                    env |= e2_
+                    paths |= p2
+            if any(env_b.get(n) != proj.env.get(n) for n in env):
+                out.add("env-changed")
+            for p in sorted(paths):
+                out |= file_kinds(p, "input-")
+                for pl in set(before["step"]) | set(after["step"]):
+                    for d in (before["step"].get(pl), after["step"].get(pl)):
+                        if d is not None and pl != l and (p in d["out"] or p in d["vol"]):
+                            out |= {k for k in step_kinds(pl, "input-producer-", deep=False)
+                                    if not k.endswith("-added")}
+            return out
+
+        def file_kinds(p, prefix=""):
+            out = set()
+            if p in src_b and p not in proj.sources:
+                out.add(prefix + "source-deleted" + ("-still-declared" if any(_declares(s, p) for s in after["static"]) else ""))
+            elif p not in src_b and p in proj.sources:
+                out.add(prefix + "source-added")
+            elif p in src_b and src_b[p] != proj.sources[p]:
+                out.add(prefix + "source-changed")
+            was = any(_declares(s, p) for s in before["static"])
+            now = any(_declares(s, p) for s in after["static"])
+            if was and not now:
+                out.add(prefix + "static-dropped")
+            elif now and not was:
+                out.add(prefix + ("static-readded" if any(_declares(s, p) for s in seen_static) else "static-added"))
+            return out
+
+        for l in sorted(steps):
+            kinds |= step_kinds(l)
+        for p in sorted(files):
+            kinds |= file_kinds(p)
+        seen_steps |= set(after["step"])
+        seen_static |= set(after["static"])
+    # being declared for the first time is what a build from scratch does too: it only names a
+    # cause when nothing else happened to the subject
+    first = {"step-added", "subplan-added", "static-added", "input-static-added"}
+    if kinds - first:
+        kinds -= first
+    return kinds
+
+
+def cause_class(case: dict, diffs: list, va: dict, vb: dict) -> str:
+    """Cause class of the leading unexplained difference: the edit kinds that touch its subject
+    (see ``subject_edit_kinds``); 'elsewhere(...)' with the kinds of the whole history when no
+    edit touches the subject."""
+    key = next((d["key"] for d in diffs if d["key"]), "")
+    steps, files = set(), set()
+    kind, _, label = key.partition(":")
+    if kind == "step":
+        steps.add(label)
+    elif kind == "file":
+        for view in (va, vb):
+            for k, ent in view.items():
+                if ent["kind"] == "step" and any(o == key for o, _ in ent["out"]):
+                    steps.add(k.split(":", 1)[1])
+        if not steps:
+            files.add(label)
+            for view in (va, vb):       # a file that a step's run declares: that step is the subject
+                c = (view.get(key) or {}).get("creator") or ""
+                if c.startswith("step:") and c != "step:./plan.py":
+                    steps.add(c.split(":", 1)[1])
+    elif label:
+        files.add(label)
+    project, history = e3.Project.from_json(case["project"]), case["history"]
+    kinds = subject_edit_kinds(project, history, steps, files) if (steps or files) else set()
+    if kinds:
+        return "+".join(sorted(kinds))
+    allk = sorted({k for ph in edit_kinds(project, history) for k in ph})
+    return "elsewhere(" + ("+".join(allk) if allk else "nothing") + ")"
+
+
 # ---------------------------------------------------------------------------------------------
 # Signatures
 # ---------------------------------------------------------------------------------------------
@@ -406,10 +573,12 @@ def _downstream(view: dict, seeds: set) -> set:
     return seen
 
 
-def signatures(inc: e3.BuildResult, scr: e3.BuildResult, diffs: list, triggers: list | None = None,
+def signatures(inc: e3.BuildResult, scr: e3.BuildResult, diffs: list, case: dict | None = None,
                earlier: list | None = None) -> dict:
-    """{signature: [diffs explained by it]}.  Named root causes first, generic for the rest.
-    ``earlier``: the results of the builds before the last incremental one (for F1)."""
+    """{signature: [diffs explained by it]}.  Named root causes first; everything else
+    ``C01:diff:<difference kind>[:<a>/<b>]:cause:<cause class>`` where the cause class names the
+    kinds of edit that touch the SUBJECT of the leading difference (``cause_class``; needs
+    ``case``).  ``earlier``: the results of the builds before the last incremental one (for F1)."""
     sigs: dict = {}
     if not diffs:
         return sigs
@@ -445,6 +614,17 @@ def signatures(inc: e3.BuildResult, scr: e3.BuildResult, diffs: list, triggers: 
         explained |= {id(d) for d in mine}
     # D9 pattern: an active step lists initial env vars that the current definition does not name.
     d9 = [d for d in diffs if d["kind"] == "prop:env" and set(d["a"]) > set(d["b"])]
+    # ... second symptom of the same rows: the rerun of the re-defined step amends a variable whose
+    # stale row (dynamic = 0) is still there; amend_env_deps is INSERT OR IGNORE, so the row keeps
+    # dynamic = 0 where a build from scratch records "<name> [dynamic]".  Claimed only when the
+    # names that lack the mark are all stale rows of the same step and nothing else differs.
+    stale_rows = {d["key"]: set(d["a"]) - set(d["b"]) for d in d9}
+    for d in diffs:
+        if d["kind"] == "prop:env_dynamic" and d["key"] in stale_rows:
+            a = {x[: -len(DYN)] for x in d["a"]}
+            b = {x[: -len(DYN)] for x in d["b"]}
+            if a < b and (b - a) <= stale_rows[d["key"]]:
+                d9.append(d)
     if d9:
         sigs[SIG_D9] = d9
         explained |= {id(d) for d in d9}
@@ -564,10 +744,8 @@ def signatures(inc: e3.BuildResult, scr: e3.BuildResult, diffs: list, triggers: 
         detail = ""
         if d["kind"].endswith("-state") or d["kind"] == "rc":
             detail = f":{d['a']}/{d['b']}"
-        trig = ""
-        if triggers is not None:
-            trig = ":after:" + "+".join(sorted({k for ph in triggers for k in ph})) if any(triggers) else ":after:nothing"
-        sigs[f"C01:diff:{d['kind']}{detail}{trig}"] = rest
+        cause = ":cause:" + cause_class(case, rest, va, vb) if case is not None else ""
+        sigs[f"C01:diff:{d['kind']}{detail}{cause}"] = rest
     return sigs
 
 
@@ -599,10 +777,9 @@ def run_case(case: dict) -> dict:
     return {"inc": inc, "scr": scr, "results": results, "diffs": diffs}
 
 
-def case_signatures(case: dict, with_triggers: bool = False) -> dict:
+def case_signatures(case: dict) -> dict:
     r = run_case(case)
-    trig = edit_kinds(e3.Project.from_json(case["project"]), case["history"]) if with_triggers else None
-    return signatures(r["inc"], r["scr"], r["diffs"], trig, r["results"][:-1])
+    return signatures(r["inc"], r["scr"], r["diffs"], case, r["results"][:-1])
 
 
 # ---------------------------------------------------------------------------------------------
@@ -662,8 +839,21 @@ def _map_programs(case: dict, fn) -> dict:
     return c
 
 
+def _fold_first(case: dict) -> dict:
+    """The first phase becomes part of the initial project (one build less)."""
+    c = copy.deepcopy(case)
+    proj = e3.Project.from_json(c["project"])
+    for edit in c["history"][0].get("edits", []):
+        e3.apply_edit(proj, None, edit)
+    c["project"] = proj.to_json()
+    del c["history"][0]
+    return c
+
+
 def _candidates(case: dict):
     h = case["history"]
+    if len(h) > 1 and not any(k != "edits" for k in h[0]):
+        yield "fold phase 0 into the project", _fold_first(case)
     for i in range(len(h) - 1, -1, -1):
         if len(h) > 1:
             c = copy.deepcopy(case)
